@@ -106,6 +106,7 @@ type workItem struct {
 
 // Path is one execution of a harness following a decision prefix.
 type Path struct {
+	jsonHexMode bool // hexjson.Unmarshal in progress (byte slices are hex strings)
 	eng          *Engine
 	h            *Harness
 	res          *HarnessResult
